@@ -200,6 +200,8 @@ type Daemon struct {
 	phase     int
 	// CancelFn cancels the context the evaluation runs under (cancel fault).
 	CancelFn     func()
+	ctxCancelAt  int // -1 = never
+	CtxCancelled bool
 	cancelAt     int // -1 = never
 	cancelSeen   bool
 	FaultsFired  map[string]int
@@ -222,10 +224,16 @@ func NewDaemon(w *World, faults []Fault, v *Variant, verbose bool) *Daemon {
 		FaultsFired: map[string]int{},
 		hash:        14695981039346656037,
 	}
+	d.ctxCancelAt = -1
 	for _, f := range faults {
 		if f.Kind == FaultCancel {
 			if d.cancelAt < 0 || f.Event < d.cancelAt {
 				d.cancelAt = f.Event
+			}
+		}
+		if f.Kind == FaultCtxCancel {
+			if d.ctxCancelAt < 0 || f.Event < d.ctxCancelAt {
+				d.ctxCancelAt = f.Event
 			}
 		}
 	}
@@ -237,6 +245,13 @@ func NewDaemon(w *World, faults []Fault, v *Variant, verbose bool) *Daemon {
 // Caller holds d.mu.
 func (d *Daemon) ev(kind string, id string, a, b int) int {
 	d.seq++
+	if d.ctxCancelAt >= 0 && d.seq >= d.ctxCancelAt && !d.CtxCancelled {
+		d.CtxCancelled = true
+		d.FaultsFired[FaultCtxCancel]++
+		if d.CancelFn != nil {
+			d.CancelFn()
+		}
+	}
 	h := d.hash
 	for i := 0; i < len(kind); i++ {
 		h = (h ^ uint64(kind[i])) * 1099511628211
